@@ -418,17 +418,24 @@ def Tys.take : Tys → Nat → Tys
   | .nil, _ + 1 => .nil
   | .cons t ts, n + 1 => .cons t (Tys.take ts n)
 
-/-- Python's `attrs[begin:end]` for non-negative or omitted bounds -/
-def Tys.slice (ts : Tys) (lo hi : Option Nat) : Tys :=
+/-- `PySlice_AdjustIndices` for step 1: a negative bound counts from the end, both are clamped to the length -/
+def clampIdx (n : Nat) (i : Int) : Nat :=
+  if i < 0 then n - i.natAbs else min i.toNat n
+
+/-- Python's `attrs[begin:end]` (the handler slices the list of element types with Python's own slicing) -/
+def Tys.slice (ts : Tys) (lo hi : Option Int) : Tys :=
   let n := ts.length
-  let l := match lo with | some i => min i n | none => 0
-  let h := match hi with | some i => min i n | none => n
+  let l := match lo with | some i => clampIdx n i | none => 0
+  let h := match hi with | some i => clampIdx n i | none => n
   (ts.drop l).take (h - l)
 
-/-- a slice bound the handler can read: an `Integer` literal or `Empty` (reflections.py:476) -/
-def literalBound : Expr → Option (Option Nat)
+/-- a slice bound the handler can read (`literal_bound`, reflections.py:476-486; da8b916): omitted, an `Integer` literal, or a
+    `+` / `-` `Factor` directly over an `Integer` literal -/
+def literalBound : Expr → Option (Option Int)
   | .int n => some (some n)
   | .empty_ => some none
+  | .factor .neg (.int n) => some (some (-(n : Int)))
+  | .factor .pos (.int n) => some (some n)
   | _ => none
 
 /-- `on_indexer`, sliced (reflections.py:472-482): a tuple with literal (or omitted) bounds gives the tuple of the selected
